@@ -90,6 +90,7 @@ add('array_slice', '', 'let a: array<int> = [10, 20, 30, 40, 50]\nlet sl: array<
 add('float_literal_precision', '', 'let x: float = 1.00000001\nlet y: float = 1.00000002\n(println (< x y))\n(println (== x y))', 'true\nfalse\n')
 add('for_range_end_once', 'fn tre(x: int) -> int {\n (println "end")\n return x\n}\nshadow tre { assert true }', 'for i in (range 0 (tre 3)) {\n (println i)\n}', 'end\n0\n1\n2\n')
 add('block_shadow_selfref', '', 'let x: int = 5\nif (> x 1) {\n let x: int = (+ x 1)\n (println x)\n}\n(println x)', '6\n5\n')
+add('block_shadow_mut_mismatch', '', 'let mut x: int = 1\nif (> x 0) {\n let x: int = 2\n (println x)\n}\nset x 3\n(println x)', '2\n3\n')
 add('import_fnvalue', '', '(println "skip")', 'skip\n')
 
 
